@@ -122,7 +122,9 @@ class Ref:
             else:
                 q = (t - first) / interval
                 hit = (t - first) >= 0 and (t - first) % interval == 0
-                if not hit:
+                if not hit and t < first:
+                    self.cond(t - first)          # before the first pulse nothing fires, whole multiples of the interval included
+                elif not hit:
                     self.cond((q - round(q)) * interval)
             return vol / self.fdt if hit else 0.0
         if kind == "delay":
